@@ -231,7 +231,11 @@ pub struct Search {
 
 pub fn make_case<W: WorldDriver>(spec: &PropSpec, hdr: &[u8], recs: &[Rec]) -> Case {
     let narch = W::archs().len();
-    Case { world: W::NAME.to_string(), header: Header::decode(hdr, narch), ops: spec.profile().decode_all(recs) }
+    let mut ops = spec.profile().decode_all(recs);
+    if let Some((arch, k)) = PREFILL.with(|p| p.get()) {
+        ops.insert(0, Op::Prefill { sim: 0, arch, k });
+    }
+    Case { world: W::NAME.to_string(), header: Header::decode(hdr, narch), ops }
 }
 
 pub fn seeded_config(cases: u32, seed: u64) -> (Config, TestRng) {
@@ -249,6 +253,11 @@ pub fn seeded_config(cases: u32, seed: u64) -> (Config, TestRng) {
 thread_local! {
     /// (hash to look for, file to write the case to): used to recover a case from its hash
     pub static DUMP: std::cell::RefCell<Option<(u64, String)>> = std::cell::RefCell::new(None);
+}
+
+thread_local! {
+    /// `--prefill arch,k`: every generated case starts with `Op::Prefill` (k * 1024 creations)
+    pub static PREFILL: std::cell::Cell<Option<(u8, u8)>> = std::cell::Cell::new(None);
 }
 
 pub fn search<W: WorldDriver>(spec: &PropSpec, cfg: &Cfg, cases: u32, max_len: usize, seed: u64, record_traces: bool, last_case: Option<&str>) -> Search {
